@@ -72,6 +72,9 @@ const (
 )
 
 func goTypeOf(e ast.Expr) gty {
+	if ty, ok := goTypeOf5(e); ok { // translate5.go: interface{} as the sum of the package's structs, the template store
+		return ty
+	}
 	switch exprString(e) {
 	case "byte", "uint8":
 		return tU8
@@ -151,6 +154,9 @@ func isStruct(t gty) bool { return strings.HasPrefix(string(t), "struct:") }
 func isPtr(t gty) bool    { return strings.HasPrefix(string(t), "ptr:") }
 
 func leanTy(t gty) string {
+	if s, ok := leanTy5(t); ok { // translate5.go
+		return s
+	}
 	switch t {
 	case tU8:
 		return "UInt8"
@@ -242,6 +248,9 @@ func elemOf(t gty) gty {
 	if isStructList(t) {
 		return gty(strings.TrimPrefix(string(t), "list:"))
 	}
+	if t == tLIface { // translate5.go
+		return tIface
+	}
 	return tBad
 }
 
@@ -262,6 +271,10 @@ func zeroOf(t gty) (string, bool) {
 		return "{}", true
 	case tPInfo:
 		return "Next.none", true
+	case tIface: // translate5.go
+		return "Iface.nil", true
+	case tLIface:
+		return "[]", true
 	}
 	return "", false
 }
@@ -277,6 +290,7 @@ var leanReserved = map[string]bool{
 	"axiom": true, "inductive": true, "abbrev": true, "opaque": true, "export": true, "extends": true,
 	"using": true, "calc": true, "nomatch": true, "nofun": true, "suffices": true, "obtain": true,
 	"Type": true, "Prop": true, "Sort": true, "forall": true, "exists": true,
+	"rec": true, // translate5.go: `let rec` starts a recursive definition
 }
 
 func leanIdent(s string) string {
@@ -433,7 +447,11 @@ type tr struct {
 	caseNames   map[string]int
 	curResTy    string // the type of the term being built (changes inside an outlined loop body)
 	imports     map[string]string
-	consts      map[string]val // typed constants of imported packages, by qualified name
+	consts      map[string]val    // typed constants of imported packages, by qualified name
+	skip5       int               // translate5.go: statements already consumed by stmt5
+	listStores5 []*ast.AssignStmt // translate5.go: the stores into local slices of structs (checked by checkListStores5)
+	errVal5     bool              // translate5.go: the error is a value in the result
+	fd5         *ast.FuncDecl     // translate5.go: the function being translated
 }
 
 func (t *tr) fail(n ast.Node, f string, a ...interface{}) string {
@@ -557,6 +575,9 @@ func (t *tr) as(n ast.Node, v val, want gty) string {
 		}
 		return t.fail(n, "nil used as %s", want)
 	}
+	if want == tIface && isStruct(v.ty) && ifaceCtors5[leanTy(v.ty)] {
+		return "(Iface." + leanTy(v.ty) + " " + v.code + ")" // translate5.go: a struct stored in an interface{}
+	}
 	if v.ty != want {
 		return t.fail(n, "type mismatch: have %s, want %s", v.ty, want)
 	}
@@ -643,9 +664,9 @@ func (t *tr) expr(e ast.Expr) val {
 		t.noEscape++
 		base := t.expr(x.X)
 		t.noEscape--
-		if isStructList(base.ty) && !intMode {
+		if isStructList(base.ty) {
 			i := t.as(x.Index, t.expr(x.Index), tInt)
-			return val{code: t.bind("Go.idxL " + base.code + " " + i), ty: elemOf(base.ty)}
+			return val{code: t.bind("Go.idxL" + iSuffix() + " " + base.code + " " + i), ty: elemOf(base.ty)}
 		}
 		if base.ty != tBytes {
 			return t.failV(x, "index into %s (only []byte)", base.ty)
@@ -681,6 +702,9 @@ func (t *tr) expr(e ast.Expr) val {
 		ty := goTypeOf(x.Type)
 		if isStruct(ty) && len(x.Elts) == 0 {
 			return val{code: "({} : " + leanTy(ty) + ")", ty: ty}
+		}
+		if isStruct(ty) {
+			return t.structLit5(x, ty) // translate5.go: T{F: v, …}
 		}
 		el := elemOf(ty)
 		if el == tBad || isStructList(ty) {
@@ -864,7 +888,7 @@ func (t *tr) binary(x *ast.BinaryExpr) val {
 			switch a.ty {
 			case tEnv:
 				c = "(Go.envIsNil " + a.code + ")"
-			case tTMapper, tPMapper:
+			case tTMapper, tPMapper, tTS:
 				c = "(" + a.code + ").isNone"
 			case tError:
 				c = "(" + a.code + ").isNone"
@@ -1067,7 +1091,7 @@ func (t *tr) convert(n ast.Node, to gty, v val) val {
 		return val{code: v.code + ".toNat", ty: tInt}
 	case v.ty == tInt && isUnsigned(to):
 		if intMode {
-			return t.failV(n, "%s(int) on a signed int", to)
+			return val{code: fmt.Sprintf("(Go.u%dOfInt %s)", width(to), v.code), ty: to} // translate5.go: wraps (two's complement)
 		}
 		return val{code: "(" + leanTy(to) + ".ofNat " + v.code + ")", ty: to}
 	}
@@ -1154,6 +1178,9 @@ func (t *tr) sprintf(x *ast.CallExpr) val {
 }
 
 func (t *tr) call(x *ast.CallExpr) val {
+	if v, ok := t.call5(x); ok { // translate5.go: payload.Next, bytes.NewBuffer, binary.Size, errors.Is / Join
+		return v
+	}
 	fn := exprString(x.Fun)
 	if ut, ok := localNamed[fn]; ok && len(x.Args) == 1 {
 		// IPAddress(x): a named integer type of the package, same values as its underlying type
@@ -1163,13 +1190,15 @@ func (t *tr) call(x *ast.CallExpr) val {
 		if id, ok := se.X.(*ast.Ident); ok {
 			if ty, _ := t.lookup(id.Name); ty == tBuf && !intMode {
 				return val{code: leanIdent(id.Name) + ".length", ty: tInt}
+			} else if ty == tBuf {
+				return val{code: "(" + leanIdent(id.Name) + ".length : Int)", ty: tInt} // translate5.go
 			}
 		}
 	}
-	if fn == "make" && len(x.Args) == 2 && !intMode {
+	if fn == "make" && len(x.Args) == 2 {
 		if lt := goTypeOf(x.Args[0]); isStructList(lt) {
 			n := t.as(x.Args[1], t.expr(x.Args[1]), tInt)
-			return val{code: t.bind("Go.makeL " + n + " ({} : " + leanTy(elemOf(lt)) + ")"), ty: lt}
+			return val{code: t.bind("Go.makeL" + iSuffix() + " " + n + " ({} : " + leanTy(elemOf(lt)) + ")"), ty: lt}
 		}
 	}
 	switch fn {
@@ -1362,6 +1391,7 @@ type fnSig struct {
 	kind    string
 	lean    string // Lean name when it is not the Go name (prelude externals)
 	refs    []int  // indices of the pointer parameters of a "ptrs" function
+	errVal  bool   // translate5.go: a state-passing function whose error is a value in the result (the caller inspects it)
 }
 
 var translatedSigs = map[string]fnSig{}
@@ -1776,6 +1806,12 @@ func assignedNames(nodes []ast.Node) map[string]bool {
 					out[baseName(x.X)] = true
 				}
 			case *ast.CallExpr:
+				// payload.Next(n) advances the buffer, templates.AddTemplate(…) changes the store (translate5.go)
+				if se, ok := x.Fun.(*ast.SelectorExpr); ok && se.Sel.Name != "Len" {
+					if id, ok := se.X.(*ast.Ident); ok && pointerVars[id.Name] {
+						out[id.Name] = true
+					}
+				}
 				// the message / the destination cell handed to a call: the callee may write through the pointer
 				for _, a := range x.Args {
 					if id, ok := a.(*ast.Ident); ok && (pointerVars[id.Name] || exprString(x.Fun) == "utils.BinaryDecoder") {
@@ -1875,6 +1911,14 @@ func (t *tr) block(list []ast.Stmt, k konts) []string {
 	var out []string
 	for i, s := range list {
 		rest := list[i+1:]
+		if t.skip5 > 0 { // translate5.go: the statement was consumed together with the one before it
+			t.skip5--
+			continue
+		}
+		if lines, ok := t.stmt5(list, i); ok { // translate5.go: statement forms of the wire decoders
+			out = append(out, lines...)
+			continue
+		}
 		switch x := s.(type) {
 		case *ast.ReturnStmt:
 			if len(rest) != 0 {
@@ -2018,6 +2062,9 @@ func (t *tr) ifStmt(x *ast.IfStmt, rest []ast.Stmt, k konts) []string {
 	mark := len(t.env)
 	defer func() { t.env = t.env[:mark] }()
 	var out []string
+	if lines, ok := t.if5(x, rest, k); ok { // translate5.go: checked calls in a function whose error is a value
+		return lines
+	}
 	if ce, cls, ok := tryPattern(x); ok && t.retKind == "st" {
 		lines, _ := t.effectCallSt(ce, cls)
 		out = append(out, lines...)
@@ -2197,6 +2244,9 @@ func (t *tr) switchToIf(x *ast.SwitchStmt) (*ast.IfStmt, bool) {
 func (t *tr) typeSwitch(x *ast.TypeSwitchStmt, rest []ast.Stmt, k konts) []string {
 	mark := len(t.env)
 	defer func() { t.env = t.env[:mark] }()
+	if lines, ok := t.typeSwitch5(x, rest, k); ok { // translate5.go: a switch on an interface{} holding structs of the package
+		return lines
+	}
 	if x.Init != nil {
 		return []string{t.fail(x, "type switch with init statement")}
 	}
@@ -2355,6 +2405,7 @@ func (t *tr) rangeStmt(x *ast.RangeStmt) []string {
 func (t *tr) forStmt(x *ast.ForStmt, fuel string) []string {
 	var out []string
 	if x.Init != nil {
+		defer t.endForScope5(len(t.env))() // translate5.go: the variable of the init statement ends with the loop
 		out = append(out, t.simple(x.Init)...)
 	}
 	if fuel == "" {
@@ -2363,7 +2414,7 @@ func (t *tr) forStmt(x *ast.ForStmt, fuel string) []string {
 			fuel = "(Go.loopFuel data)"
 		} else {
 			for _, v := range t.env {
-				if v.ty == tBuf && !intMode {
+				if v.ty == tBuf {
 					fuel = "(Go.loopFuel " + leanIdent(v.name) + ")"
 				}
 			}
@@ -2482,6 +2533,7 @@ func (t *tr) function(fd *ast.FuncDecl) string {
 	t.refParams, t.fieldStores, t.ctlLoop, t.refOrder = map[string]bool{}, false, false, nil
 	t.caseBlocks, t.caseNames, t.curResTy = map[*ast.BlockStmt]string{}, map[string]int{}, ""
 	t.stVars = nil
+	t.errVal5 = false
 
 	var params []string
 	var sig fnSig
@@ -2514,7 +2566,7 @@ func (t *tr) function(fd *ast.FuncDecl) string {
 				t.refOrder = append(t.refOrder, nm.Name)
 				sig.refs = append(sig.refs, len(sig.params))
 			}
-			if ty == tBuf || isStructPtr {
+			if ty == tBuf || isStructPtr || ty == tTS {
 				t.stVars = append(t.stVars, nm.Name)
 				sig.refs = append(sig.refs, len(sig.params))
 			}
@@ -2563,7 +2615,7 @@ func (t *tr) function(fd *ast.FuncDecl) string {
 	if len(t.retTys) == 2 && t.retTys[0] == tRes && t.retTys[1] == tError && msgTy == tMsg && named {
 		t.retKind = "parser"
 		resTy = "Res PRes"
-	} else if len(t.stVars) > 0 && len(t.retTys) >= 1 && t.retTys[len(t.retTys)-1] == tError && !named && t.msgVar == "" && t.cellVar == "" && len(t.refOrder) == 0 {
+	} else if len(t.stVars) > 0 && len(t.retTys) >= 1 && t.retTys[len(t.retTys)-1] == tError && (!named || stvMode5) && t.msgVar == "" && t.cellVar == "" && len(t.refOrder) == 0 {
 		// state-passing: the buffer and the structs behind pointers come back in front of the results
 		t.retKind = "st"
 		var tys []string
@@ -2573,6 +2625,10 @@ func (t *tr) function(fd *ast.FuncDecl) string {
 		}
 		for _, rt := range t.retTys[:len(t.retTys)-1] {
 			tys = append(tys, leanTy(rt))
+		}
+		if stvMode5 { // translate5.go: the error is the last component of the result
+			tys = append(tys, "Go.Error")
+			t.errVal5, sig.errVal = true, true
 		}
 		resTy = "Res (" + strings.Join(tys, " × ") + ")"
 	} else if t.cellVar != "" && len(t.retTys) == 1 && t.retTys[0] == tError && !named {
